@@ -787,3 +787,382 @@ theorem jsonDecode_quoteString (s : Bytes) (h : validUtf8 s = true) :
   rw [← jsonEncode_false_eq]; exact jsonDecode_jsonEncode false s h
 
 end Martian.InvocationStr
+
+/-! ### the Python writer (`json.dumps`, `ensure_ascii`): UTF-8 decode/encode identities,
+`\uXXXX` and surrogate-pair escapes are read back by `unquoteBytes` -/
+namespace Martian.InvocationStr
+open Martian.Lexer (Bytes unqLoop unquoteBytes goEscape surrPair encodeRune hexByte hexVal isOct isDigit runeError)
+open Martian.Format (hexDigit unq_plain unq_esc)
+open Martian.ShellQuote (runeWidth validFrom validUtf8 ok2 ok3 ok4 isCont)
+
+theorem hexByte_digits : ∀ a, a < 16 → ∀ b, b < 16 → hexByte (hexDigit a) (hexDigit b) = some (a * 16 + b) := by
+  decide
+
+theorem ofNat_toNat' (b : UInt8) : UInt8.ofNat b.toNat = b := by simp
+
+/-- 2-byte sequences: encode ∘ decode = id -/
+theorem enc_dec2 (b0 b1 : UInt8) (h : ok2 b0 b1 = true) :
+    encodeRune ((b0.toNat % 32) * 64 + b1.toNat % 64) = [b0, b1] := by
+  simp only [ok2, isCont, Bool.and_eq_true, decide_eq_true_eq, UInt8.le_iff_toNat_le] at h
+  obtain ⟨⟨h1, h2⟩, h3, h4⟩ := h
+  have e1 : (0xC2 : UInt8).toNat = 194 := rfl
+  have e2 : (0xDF : UInt8).toNat = 223 := rfl
+  have e3 : (0x80 : UInt8).toNat = 128 := rfl
+  have e4 : (0xBF : UInt8).toNat = 191 := rfl
+  rw [e1] at h1; rw [e2] at h2; rw [e3] at h3; rw [e4] at h4
+  have a : ¬ ((b0.toNat % 32) * 64 + b1.toNat % 64 < 0x80) := by omega
+  have b : (b0.toNat % 32) * 64 + b1.toNat % 64 < 0x800 := by omega
+  have c0 : 0xC0 + ((b0.toNat % 32) * 64 + b1.toNat % 64) / 64 = b0.toNat := by omega
+  have c1 : 0x80 + ((b0.toNat % 32) * 64 + b1.toNat % 64) % 64 = b1.toNat := by omega
+  simp only [encodeRune, a, b, ↓reduceIte, c0, c1, ofNat_toNat']
+
+theorem u8 (n : Nat) (h : n < 256) : (UInt8.ofNat n).toNat = n := by simp [UInt8.toNat_ofNat, Nat.mod_eq_of_lt h]
+
+/-- 3-byte sequences -/
+theorem enc_dec3 (b0 b1 b2 : UInt8) (h : ok3 b0 b1 b2 = true) :
+    encodeRune ((b0.toNat % 16) * 4096 + (b1.toNat % 64) * 64 + b2.toNat % 64) = [b0, b1, b2]
+    ∧ 0x800 ≤ (b0.toNat % 16) * 4096 + (b1.toNat % 64) * 64 + b2.toNat % 64
+    ∧ (b0.toNat % 16) * 4096 + (b1.toNat % 64) * 64 + b2.toNat % 64 < 0x10000
+    ∧ ¬ (0xD800 ≤ (b0.toNat % 16) * 4096 + (b1.toNat % 64) * 64 + b2.toNat % 64
+        ∧ (b0.toNat % 16) * 4096 + (b1.toNat % 64) * 64 + b2.toNat % 64 < 0xE000) := by
+  simp only [ok3, isCont, Bool.and_eq_true, decide_eq_true_eq, UInt8.le_iff_toNat_le] at h
+  obtain ⟨⟨⟨⟨h1, h2⟩, h3⟩, h4⟩, h5, h6⟩ := h
+  have e1 : (0xE0 : UInt8).toNat = 224 := rfl
+  have e2 : (0xEF : UInt8).toNat = 239 := rfl
+  have e3 : (0x80 : UInt8).toNat = 128 := rfl
+  have e4 : (0xBF : UInt8).toNat = 191 := rfl
+  have e5 : (0xA0 : UInt8).toNat = 160 := rfl
+  have e6 : (0x9F : UInt8).toNat = 159 := rfl
+  rw [e1] at h1; rw [e2] at h2; rw [e3] at h5; rw [e4] at h6
+  have k3 : (if b0.toNat = 224 then 160 else 128) ≤ b1.toNat := by
+    by_cases hb : b0 = 0xE0
+    · subst hb; simp at h3 ⊢; exact h3
+    · have hne : ¬ b0.toNat = 224 := fun hh => hb (UInt8.toNat_inj.mp (by rw [hh]; rfl))
+      simp [hb] at h3; simp [hne]; exact h3
+  have k4 : b1.toNat ≤ (if b0.toNat = 237 then 159 else 191) := by
+    by_cases hb : b0 = 0xED
+    · subst hb; simp at h4 ⊢; exact h4
+    · have hne : ¬ b0.toNat = 237 := fun hh => hb (UInt8.toNat_inj.mp (by rw [hh]; rfl))
+      simp [hb] at h4; simp [hne]; exact h4
+  have hb1lo : 128 ≤ b1.toNat := by split at k3 <;> omega
+  have hb1hi : b1.toNat ≤ 191 := by split at k4 <;> omega
+  have hE0 : b0.toNat = 224 → 160 ≤ b1.toNat := by intro hh; simp [hh] at k3; exact k3
+  have hED : b0.toNat = 237 → b1.toNat ≤ 159 := by intro hh; simp [hh] at k4; exact k4
+  clear k3 k4 h3 h4
+  have hr1 : 0x800 ≤ (b0.toNat % 16) * 4096 + (b1.toNat % 64) * 64 + b2.toNat % 64 := by omega
+  have hr2 : (b0.toNat % 16) * 4096 + (b1.toNat % 64) * 64 + b2.toNat % 64 < 0x10000 := by omega
+  have hr3 : ¬ (0xD800 ≤ (b0.toNat % 16) * 4096 + (b1.toNat % 64) * 64 + b2.toNat % 64
+        ∧ (b0.toNat % 16) * 4096 + (b1.toNat % 64) * 64 + b2.toNat % 64 < 0xE000) := by omega
+  refine ⟨?_, hr1, hr2, hr3⟩
+  have c0 : 0xE0 + ((b0.toNat % 16) * 4096 + (b1.toNat % 64) * 64 + b2.toNat % 64) / 4096 = b0.toNat := by omega
+  have c1 : 0x80 + ((b0.toNat % 16) * 4096 + (b1.toNat % 64) * 64 + b2.toNat % 64) / 64 % 64 = b1.toNat := by omega
+  have c2 : 0x80 + ((b0.toNat % 16) * 4096 + (b1.toNat % 64) * 64 + b2.toNat % 64) % 64 = b2.toNat := by omega
+  generalize hr : (b0.toNat % 16) * 4096 + (b1.toNat % 64) * 64 + b2.toNat % 64 = r at *
+  have a : ¬ r < 0x80 := by omega
+  have b : ¬ r < 0x800 := by omega
+  have c : ¬ (r > 0x10FFFF ∨ (0xD800 ≤ r ∧ r ≤ 0xDFFF)) := by omega
+  simp [encodeRune, a, b, c, hr2, c0, c1, c2]
+
+/-- 4-byte sequences -/
+theorem enc_dec4 (b0 b1 b2 b3 : UInt8) (h : ok4 b0 b1 b2 b3 = true) :
+    encodeRune ((b0.toNat % 8) * 262144 + (b1.toNat % 64) * 4096 + (b2.toNat % 64) * 64 + b3.toNat % 64)
+      = [b0, b1, b2, b3]
+    ∧ 0x10000 ≤ (b0.toNat % 8) * 262144 + (b1.toNat % 64) * 4096 + (b2.toNat % 64) * 64 + b3.toNat % 64
+    ∧ (b0.toNat % 8) * 262144 + (b1.toNat % 64) * 4096 + (b2.toNat % 64) * 64 + b3.toNat % 64 ≤ 0x10FFFF := by
+  simp only [ok4, isCont, Bool.and_eq_true, decide_eq_true_eq, UInt8.le_iff_toNat_le] at h
+  obtain ⟨⟨⟨⟨⟨h1, h2⟩, h3⟩, h4⟩, h5, h6⟩, h7, h8⟩ := h
+  have e1 : (0xF0 : UInt8).toNat = 240 := rfl
+  have e2 : (0xF4 : UInt8).toNat = 244 := rfl
+  have e3 : (0x80 : UInt8).toNat = 128 := rfl
+  have e4 : (0xBF : UInt8).toNat = 191 := rfl
+  rw [e1] at h1; rw [e2] at h2; rw [e3] at h5 h7; rw [e4] at h6 h8
+  have k3 : (if b0.toNat = 240 then 144 else 128) ≤ b1.toNat := by
+    by_cases hb : b0 = 0xF0
+    · subst hb; simp at h3 ⊢; exact h3
+    · have hne : ¬ b0.toNat = 240 := fun hh => hb (UInt8.toNat_inj.mp (by rw [hh]; rfl))
+      simp [hb] at h3; simp [hne]; exact h3
+  have k4 : b1.toNat ≤ (if b0.toNat = 244 then 143 else 191) := by
+    by_cases hb : b0 = 0xF4
+    · subst hb; simp at h4 ⊢; exact h4
+    · have hne : ¬ b0.toNat = 244 := fun hh => hb (UInt8.toNat_inj.mp (by rw [hh]; rfl))
+      simp [hb] at h4; simp [hne]; exact h4
+  have hb1lo : 128 ≤ b1.toNat := by split at k3 <;> omega
+  have hb1hi : b1.toNat ≤ 191 := by split at k4 <;> omega
+  have hF0 : b0.toNat = 240 → 144 ≤ b1.toNat := by intro hh; simp [hh] at k3; exact k3
+  have hF4 : b0.toNat = 244 → b1.toNat ≤ 143 := by intro hh; simp [hh] at k4; exact k4
+  clear k3 k4 h3 h4
+  have hr1 : 0x10000 ≤ (b0.toNat % 8) * 262144 + (b1.toNat % 64) * 4096 + (b2.toNat % 64) * 64 + b3.toNat % 64 := by omega
+  have hr2 : (b0.toNat % 8) * 262144 + (b1.toNat % 64) * 4096 + (b2.toNat % 64) * 64 + b3.toNat % 64 ≤ 0x10FFFF := by omega
+  refine ⟨?_, hr1, hr2⟩
+  have c0 : 0xF0 + ((b0.toNat % 8) * 262144 + (b1.toNat % 64) * 4096 + (b2.toNat % 64) * 64 + b3.toNat % 64) / 262144 = b0.toNat := by omega
+  have c1 : 0x80 + ((b0.toNat % 8) * 262144 + (b1.toNat % 64) * 4096 + (b2.toNat % 64) * 64 + b3.toNat % 64) / 4096 % 64 = b1.toNat := by omega
+  have c2 : 0x80 + ((b0.toNat % 8) * 262144 + (b1.toNat % 64) * 4096 + (b2.toNat % 64) * 64 + b3.toNat % 64) / 64 % 64 = b2.toNat := by omega
+  have c3 : 0x80 + ((b0.toNat % 8) * 262144 + (b1.toNat % 64) * 4096 + (b2.toNat % 64) * 64 + b3.toNat % 64) % 64 = b3.toNat := by omega
+  generalize hr : (b0.toNat % 8) * 262144 + (b1.toNat % 64) * 4096 + (b2.toNat % 64) * 64 + b3.toNat % 64 = r at *
+  have a : ¬ r < 0x80 := by omega
+  have b : ¬ r < 0x800 := by omega
+  have c : ¬ (r > 0x10FFFF ∨ (0xD800 ≤ r ∧ r ≤ 0xDFFF)) := by omega
+  have d : ¬ r < 0x10000 := by omega
+  simp [encodeRune, a, b, c, d, c0, c1, c2, c3]
+
+/-- `\uXXXX` (lower-case hex as Python and Go write it) of a BMP code point that is no surrogate -/
+theorem unq_escU (g : Nat) (n : Nat) (X : Bytes) (hn : n < 0x10000)
+    (hs : ¬ (0xD800 ≤ n ∧ n < 0xE000)) :
+    unqLoop (g + 1) (escU n ++ X) = (unqLoop g X).map (encodeRune n ++ ·) := by
+  have h1 := hexByte_digits (n / 16 % 16) (by omega) (n % 16) (by omega)
+  have h2 := hexByte_digits (n / 4096 % 16) (by omega) (n / 256 % 16) (by omega)
+  have hv : n / 16 % 16 * 16 + n % 16 + (n / 4096 % 16 * 16 + n / 256 % 16) * 256 = n := by omega
+  have hsp : surrPair n X = some (encodeRune n, X) := by
+    unfold surrPair
+    have : (decide (0xD800 ≤ n) && decide (n < 0xE000)) = false := by
+      simp only [Bool.and_eq_false_iff, decide_eq_false_iff_not]; omega
+    simp [this]
+  have hgo : goEscape 0x75 (hex4 n ++ X) = some (encodeRune n, X) := by
+    simp only [hex4, List.cons_append, List.nil_append]
+    simp [goEscape, h1, h2, hv, hsp]
+  simp only [escU, List.cons_append]
+  exact unq_esc g 0x75 _ X _ hgo
+
+
+theorem hex4_val (n : Nat) (h : n < 0x10000) :
+    hexByte (hexDigit (n / 16 % 16)) (hexDigit (n % 16)) = some (n % 256)
+    ∧ hexByte (hexDigit (n / 4096 % 16)) (hexDigit (n / 256 % 16)) = some (n / 256) := by
+  have h1 := hexByte_digits (n / 16 % 16) (by omega) (n % 16) (by omega)
+  have h2 := hexByte_digits (n / 4096 % 16) (by omega) (n / 256 % 16) (by omega)
+  have e1 : n / 16 % 16 * 16 + n % 16 = n % 256 := by omega
+  have e2 : n / 4096 % 16 * 16 + n / 256 % 16 = n / 256 := by omega
+  rw [e1] at h1; rw [e2] at h2
+  exact ⟨h1, h2⟩
+
+theorem surrPair_pair (hi lo r : Nat) (X : Bytes) (bhi : 0xD800 ≤ hi ∧ hi < 0xDC00)
+    (blo : 0xDC00 ≤ lo ∧ lo < 0xE000) (hr : 0x10000 + (hi - 0xD800) * 1024 + (lo - 0xDC00) = r) :
+    surrPair hi (escU lo ++ X) = some (encodeRune r, X) := by
+  obtain ⟨c1, c2⟩ := hex4_val lo (by omega)
+  have cv : lo % 256 + lo / 256 * 256 = lo := by omega
+  have t1 : (decide (0xD800 ≤ hi) && decide (hi < 0xE000)) = true := by
+    simp only [Bool.and_eq_true, decide_eq_true_eq]; omega
+  have t2 : (decide (hi < 0xDC00) && decide (0xDC00 ≤ lo) && decide (lo < 0xE000)) = true := by
+    simp only [Bool.and_eq_true, decide_eq_true_eq]; omega
+  have hl : escU lo ++ X = 0x5C :: 0x75 :: hexDigit (lo / 4096 % 16) :: hexDigit (lo / 256 % 16) ::
+      hexDigit (lo / 16 % 16) :: hexDigit (lo % 16) :: X := by simp [escU, hex4]
+  rw [hl]
+  unfold surrPair
+  rw [if_pos t1]
+  simp only [beq_self_eq_true, Bool.and_self, ↓reduceIte, c1, c2, cv]
+  rw [if_pos t2, hr]
+
+
+theorem goEscape_u (n : Nat) (Y : Bytes) (hn : n < 0x10000) :
+    goEscape 0x75 (hex4 n ++ Y) = surrPair n Y := by
+  obtain ⟨c1, c2⟩ := hex4_val n hn
+  have cv : n % 256 + n / 256 * 256 = n := by omega
+  simp only [hex4, List.cons_append, List.nil_append]
+  simp [goEscape, c1, c2, cv]
+
+/-- a surrogate pair of `\\uXXXX` escapes is read as the one code point -/
+theorem unq_escPair (g : Nat) (r : Nat) (X : Bytes) (h1 : 0x10000 ≤ r) (h2 : r ≤ 0x10FFFF) :
+    unqLoop (g + 1) (escU (0xD800 + (r - 0x10000) / 1024) ++ (escU (0xDC00 + (r - 0x10000) % 1024) ++ X))
+      = (unqLoop g X).map (encodeRune r ++ ·) := by
+  have bhi : 0xD800 ≤ 0xD800 + (r - 0x10000) / 1024 ∧ 0xD800 + (r - 0x10000) / 1024 < 0xDC00 := by omega
+  have blo : 0xDC00 ≤ 0xDC00 + (r - 0x10000) % 1024 ∧ 0xDC00 + (r - 0x10000) % 1024 < 0xE000 := by omega
+  have hr : 0x10000 + (0xD800 + (r - 0x10000) / 1024 - 0xD800) * 1024
+      + (0xDC00 + (r - 0x10000) % 1024 - 0xDC00) = r := by omega
+  have hgo := goEscape_u (0xD800 + (r - 0x10000) / 1024)
+    (escU (0xDC00 + (r - 0x10000) % 1024) ++ X) (by omega)
+  rw [surrPair_pair _ _ r X bhi blo hr] at hgo
+  have : escU (0xD800 + (r - 0x10000) / 1024) ++ (escU (0xDC00 + (r - 0x10000) % 1024) ++ X)
+      = 0x5C :: 0x75 :: (hex4 (0xD800 + (r - 0x10000) / 1024) ++ (escU (0xDC00 + (r - 0x10000) % 1024) ++ X)) := by
+    simp [escU]
+  rw [this]
+  exact unq_esc g 0x75 _ X _ hgo
+
+
+theorem runeWidth_inv (b : UInt8) (r : Bytes) (w : Nat) (hb : ¬ b < 0x80)
+    (h : runeWidth (b :: r) = some w) :
+    (w = 2 ∧ ∃ b1 t, r = b1 :: t ∧ ok2 b b1 = true)
+    ∨ (w = 3 ∧ ∃ b1 b2 t, r = b1 :: b2 :: t ∧ ok3 b b1 b2 = true)
+    ∨ (w = 4 ∧ ∃ b1 b2 b3 t, r = b1 :: b2 :: b3 :: t ∧ ok4 b b1 b2 b3 = true) := by
+  rcases r with _ | ⟨b1, _ | ⟨b2, _ | ⟨b3, t⟩⟩⟩ <;> simp only [runeWidth, hb, if_false] at h
+  · cases h
+  · split at h
+    · rename_i h2; injection h with h; subst h; exact Or.inl ⟨rfl, b1, [], rfl, h2⟩
+    · cases h
+  · split at h
+    · rename_i h2; injection h with h; subst h; exact Or.inl ⟨rfl, b1, [b2], rfl, h2⟩
+    · split at h
+      · rename_i h3; injection h with h; subst h; exact Or.inr (Or.inl ⟨rfl, b1, b2, [], rfl, h3⟩)
+      · cases h
+  · split at h
+    · rename_i h2; injection h with h; subst h; exact Or.inl ⟨rfl, b1, b2 :: b3 :: t, rfl, h2⟩
+    · split at h
+      · rename_i h3; injection h with h; subst h; exact Or.inr (Or.inl ⟨rfl, b1, b2, b3 :: t, rfl, h3⟩)
+      · split at h
+        · rename_i h4; injection h with h; subst h
+          exact Or.inr (Or.inr ⟨rfl, b1, b2, b3, t, rfl, h4⟩)
+        · cases h
+
+theorem pyEscRune_bmp (n : Nat) (h1 : 0x80 ≤ n) (h2 : n < 0x10000) : pyEscRune n = escU n := by
+  have a1 : ¬ n = 0x22 := by omega
+  have a2 : ¬ n = 0x5C := by omega
+  have a3 : ¬ n = 0x0A := by omega
+  have a4 : ¬ n = 0x0D := by omega
+  have a5 : ¬ n = 0x09 := by omega
+  have a6 : ¬ n = 0x0C := by omega
+  have a7 : ¬ n = 0x08 := by omega
+  have a8 : ¬ n ≤ 0x7E := by omega
+  simp [pyEscRune, a1, a2, a3, a4, a5, a6, a7, a8, h2]
+
+theorem pyEscRune_astral (n : Nat) (h1 : 0x10000 ≤ n) :
+    pyEscRune n = escU (0xD800 + (n - 0x10000) / 1024) ++ escU (0xDC00 + (n - 0x10000) % 1024) := by
+  have a1 : ¬ n = 0x22 := by omega
+  have a2 : ¬ n = 0x5C := by omega
+  have a3 : ¬ n = 0x0A := by omega
+  have a4 : ¬ n = 0x0D := by omega
+  have a5 : ¬ n = 0x09 := by omega
+  have a6 : ¬ n = 0x0C := by omega
+  have a7 : ¬ n = 0x08 := by omega
+  have a8 : ¬ n ≤ 0x7E := by omega
+  have a9 : ¬ n < 0x10000 := by omega
+  simp [pyEscRune, a1, a2, a3, a4, a5, a6, a7, a8, a9]
+
+
+theorem eq_of_toNat (b : UInt8) (n : Nat) (hn : n < 256) (h : b.toNat = n) : b = UInt8.ofNat n := by
+  apply UInt8.toNat_inj.mp
+  rw [h, u8 n hn]
+
+/-- what the Python writer emits for an ASCII byte is read back as that byte -/
+theorem unq_pyAscii (g : Nat) (b : UInt8) (X : Bytes) (hb : b < 0x80) :
+    unqLoop (g + 1) (pyEscRune b.toNat ++ X) = (unqLoop g X).map (b :: ·) := by
+  have hlt : b.toNat < 128 := Martian.Format.lt80_toNat hb
+  unfold pyEscRune
+  by_cases h22 : b.toNat = 0x22
+  · have := eq_of_toNat b _ (by decide) h22; subst this
+    simp only [show ((UInt8.ofNat 0x22).toNat == 0x22) = true from by decide, ↓reduceIte, List.cons_append, List.nil_append]
+    rw [unq_esc g 0x22 X X [0x22] (by simp [goEscape, isOct])]; rfl
+  · by_cases h5c : b.toNat = 0x5C
+    · have := eq_of_toNat b _ (by decide) h5c; subst this
+      simp only [show ((UInt8.ofNat 0x5C).toNat == 0x22) = false from by decide,
+        show ((UInt8.ofNat 0x5C).toNat == 0x5C) = true from by decide, Bool.false_eq_true, ↓reduceIte,
+        List.cons_append, List.nil_append]
+      rw [unq_esc g 0x5C X X [0x5C] (by simp [goEscape, isOct])]; rfl
+    · by_cases h0a : b.toNat = 0x0A
+      · have := eq_of_toNat b _ (by decide) h0a; subst this
+        simp (decide := true) only [↓reduceIte, List.cons_append, List.nil_append]
+        rw [unq_esc g 0x6E X X [0x0A] (by simp [goEscape])]; rfl
+      · by_cases h0d : b.toNat = 0x0D
+        · have := eq_of_toNat b _ (by decide) h0d; subst this
+          simp (decide := true) only [↓reduceIte, List.cons_append, List.nil_append]
+          rw [unq_esc g 0x72 X X [0x0D] (by simp [goEscape])]; rfl
+        · by_cases h09 : b.toNat = 0x09
+          · have := eq_of_toNat b _ (by decide) h09; subst this
+            simp (decide := true) only [↓reduceIte, List.cons_append, List.nil_append]
+            rw [unq_esc g 0x74 X X [0x09] (by simp [goEscape])]; rfl
+          · by_cases h0c : b.toNat = 0x0C
+            · have := eq_of_toNat b _ (by decide) h0c; subst this
+              simp (decide := true) only [↓reduceIte, List.cons_append, List.nil_append]
+              rw [unq_esc g 0x66 X X [0x0C] (by simp [goEscape])]; rfl
+            · by_cases h08 : b.toNat = 0x08
+              · have := eq_of_toNat b _ (by decide) h08; subst this
+                simp (decide := true) only [↓reduceIte, List.cons_append, List.nil_append]
+                rw [unq_esc g 0x62 X X [0x08] (by simp [goEscape])]; rfl
+              · simp only [beq_iff_eq, h22, h5c, h0a, h0d, h09, h0c, h08, ↓reduceIte]
+                by_cases hp : (decide (0x20 ≤ b.toNat) && decide (b.toNat ≤ 0x7E)) = true
+                · simp only [hp, ↓reduceIte, List.cons_append, List.nil_append, ofNat_toNat']
+                  have hne : (b == 0x5C) = false := by
+                    apply Bool.eq_false_iff.mpr
+                    intro hh
+                    have := eq_of_beq hh; subst this
+                    exact h5c rfl
+                  exact unq_plain g b X hne
+                · simp only [hp, Bool.false_eq_true, ↓reduceIte]
+                  have hlt2 : b.toNat < 0x10000 := by omega
+                  simp only [hlt2, ↓reduceIte]
+                  rw [unq_escU g b.toNat X hlt2 (by omega)]
+                  rw [Martian.Format.encodeRune_ascii _ hlt]
+                  simp
+
+
+theorem enc_dec2_bounds (b0 b1 : UInt8) (h : ok2 b0 b1 = true) :
+    0x80 ≤ (b0.toNat % 32) * 64 + b1.toNat % 64 ∧ (b0.toNat % 32) * 64 + b1.toNat % 64 < 0x800 := by
+  simp only [ok2, isCont, Bool.and_eq_true, decide_eq_true_eq, UInt8.le_iff_toNat_le] at h
+  obtain ⟨⟨h1, h2⟩, h3, h4⟩ := h
+  have e1 : (0xC2 : UInt8).toNat = 194 := rfl
+  have e2 : (0xDF : UInt8).toNat = 223 := rfl
+  have e3 : (0x80 : UInt8).toNat = 128 := rfl
+  have e4 : (0xBF : UInt8).toNat = 191 := rfl
+  rw [e1] at h1; rw [e2] at h2; rw [e3] at h3; rw [e4] at h4
+  omega
+
+/-- one rune: what the Python writer emits for the rune at the head of a valid
+sequence is read back as the bytes of that rune, in one step of the unquote loop -/
+theorem unq_pyRune (g : Nat) (b : UInt8) (r : Bytes) (w : Nat) (X : Bytes)
+    (hw : runeWidth (b :: r) = some w) :
+    unqLoop (g + 1) (pyEscRune (decodeRune w (b :: r)) ++ X)
+      = (unqLoop g X).map ((b :: r.take (w - 1)) ++ ·) := by
+  by_cases hb : b < 0x80
+  · have : w = 1 := by simp [runeWidth, hb] at hw; exact hw.symm
+    subst this
+    have hd : decodeRune 1 (b :: r) = b.toNat := by simp [decodeRune]
+    rw [hd, unq_pyAscii g b X hb]
+    simp
+  · rcases runeWidth_inv b r w hb hw with ⟨rfl, b1, t, rfl, h2⟩ | ⟨rfl, b1, b2, t, rfl, h3⟩ |
+      ⟨rfl, b1, b2, b3, t, rfl, h4⟩
+    · have hd : decodeRune 2 (b :: b1 :: t) = (b.toNat % 32) * 64 + b1.toNat % 64 := by simp [decodeRune]
+      obtain ⟨l, u⟩ := enc_dec2_bounds b b1 h2
+      rw [hd, pyEscRune_bmp _ l (by omega), unq_escU g _ X (by omega) (by omega), enc_dec2 b b1 h2]
+      simp
+    · have hd : decodeRune 3 (b :: b1 :: b2 :: t)
+          = (b.toNat % 16) * 4096 + (b1.toNat % 64) * 64 + b2.toNat % 64 := by simp [decodeRune]
+      obtain ⟨he, l, u, ns⟩ := enc_dec3 b b1 b2 h3
+      rw [hd, pyEscRune_bmp _ (by omega) u, unq_escU g _ X u ns, he]
+      simp
+    · have hd : decodeRune 4 (b :: b1 :: b2 :: b3 :: t)
+          = (b.toNat % 8) * 262144 + (b1.toNat % 64) * 4096 + (b2.toNat % 64) * 64 + b3.toNat % 64 := by
+        simp [decodeRune]
+      obtain ⟨he, l, u⟩ := enc_dec4 b b1 b2 b3 h4
+      rw [hd, pyEscRune_astral _ l, List.append_assoc, unq_escPair g _ X l u, he]
+      simp
+
+theorem pyEscRune_len (n : Nat) : 1 ≤ (pyEscRune n).length := by
+  unfold pyEscRune
+  repeat' split
+  all_goals simp [escU, hex4]
+
+theorem unq_pyFrom : ∀ (s : Bytes) (k g : Nat), (pyFrom s k).length < g → validFrom s k = true →
+    unqLoop g (pyFrom s k) = some (s.drop k) := by
+  intro s
+  induction s with
+  | nil =>
+    intro k g hg _
+    obtain ⟨g', rfl⟩ : ∃ g', g = g' + 1 := ⟨g - 1, by omega⟩
+    simp [pyFrom, unqLoop]
+  | cons b r ih =>
+    intro k g hg hv
+    cases k with
+    | succ k =>
+      simp only [pyFrom, List.drop_succ_cons] at hg ⊢
+      rw [Martian.Format.validFrom_succ] at hv
+      exact ih k g hg hv
+    | zero =>
+      simp only [validFrom] at hv
+      cases hw : runeWidth (b :: r) with
+      | none => simp [hw] at hv
+      | some w =>
+        simp only [hw] at hv
+        simp only [pyFrom, hw, List.drop_zero] at hg ⊢
+        obtain ⟨g', rfl⟩ : ∃ g', g = g' + 1 := ⟨g - 1, by omega⟩
+        have hl := pyEscRune_len (decodeRune w (b :: r))
+        rw [unq_pyRune g' b r w _ hw,
+          ih (w - 1) g' (by simp only [List.length_append] at hg; omega) hv]
+        simp [List.take_append_drop]
+
+/-- What Python's `json.dumps` (`ensure_ascii`) writes for a valid UTF-8 string – `\uXXXX`
+for everything outside `' '..'~'`, surrogate pairs for non-BMP runes – is read back exactly
+by the MRO lexer's `unquoteBytes`. -/
+theorem unquote_pyEncode (s : Bytes) (h : validUtf8 s = true) :
+    unquoteBytes (pyEncodeString s) = some s := by
+  have := unq_pyFrom s 0 ((pyFrom s 0).length + 1) (by simp) h
+  simp [unquoteBytes, pyEncodeString] at this ⊢
+  exact this
+
+end Martian.InvocationStr
